@@ -74,4 +74,9 @@ def setLastEnd : List Obj → Int → List Obj
  | [c], e => [{ c with end_ := e }]
  | c :: d :: cs, e => c :: setLastEnd (d :: cs) e
 
+/-- a buffer object as `update_from_xbuffer` sees it: its bytes and (the identity of) its context -/
+structure CBuf where
+  buffer_ : List UInt8
+  context_ : Int
+
 end Py
